@@ -312,9 +312,33 @@ def ev_chain_single(case, rec):
     ev_chain(case, rec)
 
 
+# --- two threads doing DIFFERENT angle arithmetic at the same time ----------
+from gpmc import threads as _thr
+import numpy as _tnp
+import geodepy.constants as _tgc
+import geodepy.convert as _tgv
+import geodepy.geodesy as _tgg
+import geodepy.angles as _tga
+def _tk(v):
+    return repr(v)
+
+
+T_CALLS = {
+    'dms_add': lambda: (lambda: _tk(_tga.DMSAngle(-0, 30, 15.25) + _tga.HPAngle(12.3045))),
+    'hp_sub': lambda: (lambda: _tk(_tga.HPAngle(12.3045) - _tga.DDMAngle(100, 59.9999))),
+    'gon_mul': lambda: (lambda: _tk(_tga.GONAngle(-33.5) * 2.5)),
+    'ddm_div': lambda: (lambda: _tk(_tga.DDMAngle(359, 59.999) / 3)),
+    'cmp': lambda: (lambda: [_tga.DMSAngle(1, 2, 3) < _tga.DECAngle(1.03), _tga.HPAngle(-0.3) == _tga.DDMAngle(-0, 30), _tga.GONAngle(100) > _tga.DMSAngle(89, 59, 59.9)]),
+    'round_mod': lambda: (lambda: _tk((round(_tga.DMSAngle(12, 34, 56.789), 1), _tga.DMSAngle(400, 0, 1) % 360, abs(_tga.DDMAngle(-1, 2.5)), -_tga.HPAngle(0.0001)))),
+}
+_tg, _te = _thr.make(T_CALLS, ['geodepy/angles.py'], 'angles:arithmetic:threads', quick=['dms_add', 'hp_sub', 'gon_mul', 'ddm_div'],
+                     triple=('dms_add', 'hp_sub', 'cmp'))
+
+
 SUBCHECKS = [
     Sub('ops', gen_ops, ev_ops, chunk=1, floor=80, timeout=1800, envs=8),
     Sub('chains', gen_chain, ev_chain_single, chunk=1, floor=1000, envs=6),
+    Sub('threads', _tg, _te, chunk=1, floor=3, poison=False),
 ]
 
 
